@@ -483,6 +483,8 @@ func checkC13(w *World, r *Report) {
 	r.rule("C13.maplookup", "builtins that must distinguish 'absent' from 'bound to nil' (contains?, get on sets, rename-keys) use comma-ok lookups")
 	r.rule("C13.identity", "the builtins that hand one of their arguments back unchanged are exactly the reviewed ones (where the model's result is the argument itself); every other builtin builds its result, so that its kind and contents are decided by the builtin and not by what the caller happened to pass")
 	identityRule(w, r, "C13.identity")
+	r.rule("C13.kind", "the kinds a collection builtin can return (computed as the possible dynamic types of its success results) stay within the kinds confirmed against the README / step files on the reviewed tree: concat, cons, rest, map, take, drop, keys, vals yield lists; vec, subvec, range vectors; assoc/dissoc/conj/update the kind of their argument; a builtin whose result could suddenly be 'whatever was passed' or another kind is reported")
+	kindRule(w, r, e, "C13.kind")
 	r.rule("C13.mapiter", "inside a loop ranging over a map, no other map is both read (or deleted from) and written: the result must not depend on Go's random iteration order")
 	names := w.registeredNames()
 	want := propertyBuiltins()
@@ -2649,4 +2651,110 @@ func max64(a, b int64) int64 {
 		return a
 	}
 	return b
+}
+
+
+// resultKinds: for every registered builtin of lib/core, the set of dynamic types its success results can have.
+func resultKinds(w *World, e *Engine) map[string]string {
+	out := map[string]string{}
+	seen := map[*ssa.Function]bool{}
+	for _, fn := range w.registeredFuncs() {
+		if seen[fn] || fnPkgPath(fn) != modPath+"/lib/core" || fn.Signature.Results().Len() == 0 || fn.Parent() != nil {
+			continue
+		}
+		seen[fn] = true
+		if rt := fn.Signature.Results().At(0).Type(); !isMalType(rt) {
+			if !isErrorType(rt) {
+				out[fn.Name()] = shortType(rt)
+			}
+			continue
+		}
+		var ts typeSet
+		for _, rt := range errorReturns(fn) {
+			ret := rt[0].(*ssa.Return)
+			v, _ := rt[1].(ssa.Value)
+			ev, _ := rt[2].(ssa.Value)
+			if v == nil {
+				v = rt[2].(ssa.Value)
+				ev = nil
+			}
+			if ev != nil && !isNilConst(ev) && isNilConst(v) {
+				continue
+			}
+			ts.merge(e.typeSetOf(v, ret.Block(), map[ssa.Value]bool{}, 0))
+		}
+		var names []string
+		if ts.hasNil {
+			names = append(names, "nil")
+		}
+		for _, t := range ts.ts {
+			names = append(names, shortType(t))
+		}
+		if ts.unknown {
+			names = append(names, "any")
+		}
+		sort.Strings(names)
+		out[fn.Name()] = strings.Join(names, ",")
+	}
+	return out
+}
+
+
+// confirmedKinds: result kinds of the collection builtins, confirmed by reading README.md and the step files
+// against the table computed on the reviewed tree (lispcheck -dump-kinds).
+var confirmedKinds = map[string]string{
+	"assoc":       "types.HashMap,types.Set,types.Vector",
+	"concat":      "types.List",
+	"conj":        "types.HashMap,types.List,types.Set,types.Vector",
+	"cons":        "types.List",
+	"contains_Q":  "bool",
+	"count":       "int",
+	"dissoc":      "types.HashMap,types.Set",
+	"drop":        "types.List",
+	"drop_last":   "types.List",
+	"empty_Q":     "bool",
+	"keys":        "types.List",
+	"mAp":         "types.List",
+	"mErge":       "nil,types.HashMap",
+	"rAnge":       "types.Vector",
+	"rename_keys": "types.HashMap",
+	"rest":        "types.List",
+	"seq":         "nil,types.List",
+	"subvec":      "types.Vector",
+	"take":        "types.List",
+	"take_last":   "nil,types.List",
+	"update":      "nil,types.HashMap,types.Set,types.Vector",
+	"vals":        "types.List",
+	"vec":         "types.Vector",
+}
+
+func kindRule(w *World, r *Report, e *Engine, rule string) {
+	now := resultKinds(w, e)
+	n := 0
+	var names []string
+	for name := range confirmedKinds {
+		names = append(names, name)
+	}
+	sort.Strings(names)
+	for _, name := range names {
+		fn := w.Fn("lib/core", name)
+		cur, ok := now[name]
+		if fn == nil || !ok {
+			r.add(rule, nil, "result kinds of "+name, token.NoPos, "info", "no registered function of this name in lib/core (renamed builtins are C13.vocab's business)")
+			continue
+		}
+		n++
+		allowed := map[string]bool{}
+		for _, k := range strings.Split(confirmedKinds[name], ",") {
+			allowed[k] = true
+		}
+		var extra []string
+		for _, k := range strings.Split(cur, ",") {
+			if k != "" && !allowed[k] {
+				extra = append(extra, k)
+			}
+		}
+		r.check(len(extra) == 0, rule, fn, "result kinds", fn.Pos(), "within {"+confirmedKinds[name]+"}", name+" can now return "+strings.Join(extra, ", ")+" (any = a value whose kind is decided by the caller), outside the confirmed kinds {"+confirmedKinds[name]+"}")
+	}
+	r.floor(rule, "collection builtins with a confirmed result kind", n, 15)
 }
